@@ -5,7 +5,7 @@ PROP = dict(
     coq_targets=["theories/C07/Check.vo", "theories/C07/Props.vo"],
     theorems=["model_locations_are_the_masters", "tents_valid", "scalar_in_unit", "own_scalar_one",
               "later_has_no_influence", "deltas_reproduce_exact", "deltas_reproduce_rounded",
-              "default_exact", "default_exact_integer"],
+              "default_exact", "default_exact_integer", "result_independent_of_supply_order"],
     prelude="From FV.C07 Require Import Model Check.\nFrom Coq Require Import List ZArith QArith Bool.",
     harness_args=lambda tier, seed: ["--seed", str(seed), "--n", str(N[tier])],
     shard=40,
@@ -26,10 +26,10 @@ MANIFEST = dict(
          "peaks at its master; region scalars are in [0,1]; in the model's order no later region reaches an earlier "
          "master (the fact the delta algorithm relies on) and a master's own scalar is 1; hence deltas reproduce every "
          "master exactly without rounding and within 1/2 with round-ties-even, for every sparse subset of masters with "
-         "values, and the default is returned exactly. The model is tied to fontdrasil::variations on every run: "
+         "values, the default is returned exactly, and the whole model is invariant under permutation of the supplied masters. The model is tied to fontdrasil::variations on every run: "
          "sorted order, every tent, active-axis sets, every delta weight, deltas and interpolated values are compared "
          "on generated layouts; the property predicate is also evaluated directly on the implementation.",
     note="Trusted: Coq kernel + vm_compute; hand-written model (coordinates as integers scaled by a common denominator, "
          "scalars/values as exact rationals standing for f64) and its correspondence run; Rust harness. No axioms. "
-         "Order-independence of the result is checked on the implementation (two constructions compared), not yet proved.",
+         "Bounds of tents inside [-1,1] are checked on the implementation's output on every run, not proved.",
 )
